@@ -23,19 +23,19 @@ import (
 // stays executable when rapid shrinks it.
 
 type act struct {
-	Op   string `json:"op"`
-	P    int    `json:"p,omitempty"`
-	Dir  string `json:"dir,omitempty"`  // in | out: the peer's latest connection of that direction
-	Msg  string `json:"msg,omitempty"`  // send: open keepalive update notif garbage magic
-	Code uint8  `json:"code,omitempty"` // notif / magic code
-	Len  int    `json:"len,omitempty"`  // update body length
-	Cuts []int  `json:"cuts,omitempty"`
-	Ns   int64  `json:"ns,omitempty"`   // advance
-	G    int    `json:"g,omitempty"`    // write: goroutines
-	N    int    `json:"n,omitempty"`    // write: calls per goroutine
-	Back int    `json:"back,omitempty"` // write: 0 = latest session of the peer, 1 = the one before, ...
-	Plan string `json:"plan,omitempty"` // plan: refuse accept hold stall
-	GapNs int64 `json:"gap_ns,omitempty"` // write: virtual sleep between the calls of one goroutine
+	Op    string `json:"op"`
+	P     int    `json:"p,omitempty"`
+	Dir   string `json:"dir,omitempty"`  // in | out: the peer's latest connection of that direction
+	Msg   string `json:"msg,omitempty"`  // send: open keepalive update notif garbage magic
+	Code  uint8  `json:"code,omitempty"` // notif / magic code
+	Len   int    `json:"len,omitempty"`  // update body length
+	Cuts  []int  `json:"cuts,omitempty"`
+	Ns    int64  `json:"ns,omitempty"`     // advance
+	G     int    `json:"g,omitempty"`      // write: goroutines
+	N     int    `json:"n,omitempty"`      // write: calls per goroutine
+	Back  int    `json:"back,omitempty"`   // write: 0 = latest session of the peer, 1 = the one before, ...
+	Plan  string `json:"plan,omitempty"`   // plan: refuse accept hold stall
+	GapNs int64  `json:"gap_ns,omitempty"` // write: virtual sleep between the calls of one goroutine
 }
 
 type script struct {
@@ -85,9 +85,9 @@ type trace struct {
 	Dump     string
 	// quiescent snapshots: for each burst index, the stage of every connection
 	// at the last stable point before the burst
-	Stages []map[int]string
+	Stages         []map[int]string
 	RemoteOpenSent map[int]bool // conn id -> the remote sent an OPEN on it
-	FinalAt time.Duration
+	FinalAt        time.Duration
 }
 
 func tagBody(peer, sess int, g int64, idx, n int) []byte {
@@ -311,24 +311,15 @@ func runScript(t *testing.T, s script) *trace {
 					if closed && a.Op != "close" {
 						// registry calls after Close are fine but uninteresting here
 					}
-					if a.Op == "del" && !present[a.P] || a.Op == "add" && present[a.P] || (a.Op != "close" && touched[a.P]) {
-						// also: a second registry call on one peer within a burst
-						// would race with the first and make the history ambiguous
-						tr.NoOps++
-						continue
-					}
-					if a.Op != "close" {
-						touched[a.P] = true
-					}
+					// registry calls on one peer may race within a burst (DeletePeer
+					// concurrent with AddPeer); the oracles treat overlapping calls
+					// as unordered. Calls that cannot succeed are harmless.
+					_ = touched
 					ac := &apiCall{Name: a.Op, Peer: p.Remote, Burst: bi}
 					done := make(chan struct{})
 					ac.CallSeq = w.Net.NextSeq()
 					start := w.Net.Since()
-					if a.Op == "del" {
-						present[a.P] = false
-					} else if a.Op == "add" {
-						present[a.P] = true
-					} else {
+					if a.Op == "close" {
 						closed = true
 					}
 					go func(a act) {
@@ -544,6 +535,24 @@ func genScript(rt *rapid.T, prof scriptProfile) script {
 				if rapid.Bool().Draw(rt, "endconc") {
 					b = append(b, genAct(rt, n, prof))
 				}
+			}
+		case 6:
+			if prof.api == 0 {
+				b = []act{genAct(rt, n, prof)}
+				break
+			}
+			// DeletePeer racing AddPeer of the same peer while its session is
+			// up and a new connection completes the handshake at once; the
+			// peer's OnClose dawdles
+			pi := rapid.IntRange(0, n-1).Draw(rt, "rp")
+			if s.Peers[pi].Plugin.SpinUs == nil {
+				s.Peers[pi].Plugin.SpinUs = map[string]int64{}
+			}
+			s.Peers[pi].Plugin.SpinUs["close"] = pick[int64](rt, "closespin", 100, 300, 1000)
+			s.Bursts = append(s.Bursts, []act{{Op: "connect", P: pi}}, []act{{Op: "send", P: pi, Dir: "in", Msg: "open"}}, []act{{Op: "send", P: pi, Dir: "in", Msg: "keepalive"}})
+			b = []act{{Op: "del", P: pi}, {Op: "add", P: pi}, {Op: "connect", P: pi}, {Op: "send", P: pi, Dir: "in", Msg: "open"}, {Op: "send", P: pi, Dir: "in", Msg: "keepalive"}}
+			if rapid.Bool().Draw(rt, "addfirst") {
+				b[0], b[1] = b[1], b[0]
 			}
 		default:
 			for j, k := 0, rapid.IntRange(1, 4).Draw(rt, "nacts"); j < k; j++ {
